@@ -116,6 +116,10 @@ def rad50(state, string: str) -> bytes:
             string = get_as_str(state, "'.rad50' operand", state["insn"], chunk)
             for char in string:
                 try:
+                    # Only ASCII letters fold into the alphabet: str.upper() maps e.g. U+0131 to
+                    # 'I' and U+FB06 to 'ST', and str.index() looks for substrings
+                    if not char.isascii():
+                        raise ValueError(char)
                     val = radix50.TABLE.index(char.upper())
                 except ValueError:
                     reports.error(
